@@ -19,8 +19,14 @@ import (
 	"golang.org/x/tools/go/ssa"
 )
 
+type elemRead struct {
+	src  *SliceObj
+	elem Val
+}
+
 type mapSummary struct {
-	lenProved bool // the length of dst equals len(src) by construction (append idiom)
+	reads     []elemRead // every source array the stored element reads at the loop index
+	lenProved bool       // the length of dst equals len(src) by construction (append idiom)
 	iterPath  *Path
 	dst       *SliceObj
 	src       *SliceObj // nil if the stored value reads no slice element
@@ -182,21 +188,31 @@ func (k *checker) analyzeMap(res *Result, dstID string, sink func(ev Event) bool
 			k.elemSyms(s, idxKey, srcIDs, &issues, map[symID]bool{})
 		}
 	}
-	if len(srcIDs) > 1 {
-		var ids []string
-		for id := range srcIDs {
-			ids = append(ids, id)
-		}
-		sort.Strings(ids)
+	var ids []string
+	for id := range srcIDs {
+		ids = append(ids, id)
+	}
+	sort.Strings(ids)
+	if len(srcIDs) > 1 && !k.multiSrc {
 		bad("SHAPE-2", "the stored element reads more than one array (%s)", strings.Join(ids, ", "))
 	}
-	for id := range srcIDs {
+	for _, id := range ids {
 		// find the slice object: it is recorded in the content of the iteration path
 		for _, p := range res.Paths {
 			if p.Kind == EndLoopBack && p.Iter != nil && p.Iter.Entry != nil && p.Iter.Entry.ID == L {
 				if so := findSlice(p, id); so != nil {
 					ms.src = so
 					ms.elem = e.elemSym(so, ms.idx)
+					dup := false
+					for _, r := range ms.reads {
+						if r.src.id == so.id {
+							dup = true
+						}
+					}
+					if !dup {
+						ms.reads = append(ms.reads, elemRead{so, ms.elem})
+					}
+					ms.iterPath = p
 				}
 			}
 		}
@@ -453,7 +469,7 @@ func (k *checker) analyzeAppendMap(res *Result, L string, j int, dst *SliceObj, 
 			k.elemKeys(s, srcIDs, idxKeys, map[symID]bool{})
 		}
 	}
-	if len(srcIDs) != 1 || len(idxKeys) != 1 {
+	if (len(srcIDs) != 1 && !(k.multiSrc && len(srcIDs) > 1)) || len(idxKeys) != 1 {
 		if len(srcIDs) == 0 {
 			bad("SHAPE-3", "the appended element does not read the source array at all")
 		} else {
@@ -484,11 +500,21 @@ func (k *checker) analyzeAppendMap(res *Result, L string, j int, dst *SliceObj, 
 		und("SHAPE-2", "the element read, [%s], is not [loop counter (+1)]", idxKey)
 		return nil, issues
 	}
-	ms.src = findSlice(ms.iterPath, srcID)
-	if ms.src == nil {
-		und("SHAPE-2", "source array %s not found", srcID)
-		return nil, issues
+	var allIDs []string
+	for x := range srcIDs {
+		allIDs = append(allIDs, x)
 	}
+	sort.Strings(allIDs)
+	for _, id := range allIDs {
+		so := findSlice(ms.iterPath, id)
+		if so == nil {
+			und("SHAPE-2", "source array %s not found", id)
+			return nil, issues
+		}
+		ms.reads = append(ms.reads, elemRead{so, e.elemSym(so, ms.idx)})
+		ms.src = so
+	}
+	_ = srcID
 	ms.elem = e.elemSym(ms.src, ms.idx)
 	k.checkInductionIdx(ms.iterPath, ms.idx, ms.src.ln, &issues, true)
 	return ms, issues
